@@ -13,7 +13,9 @@
 (*                                    file length, table length; for a     *)
 (*                                    size / count field that other fields *)
 (*                                    imply, one less than and half of the *)
-(*                                    implied value; for offset and        *)
+(*                                    implied value; for format / flag     *)
+(*                                    fields one bit toggled (bit 0 .. 15);*)
+(*                                    for offset and                       *)
 (*                                    index fields also the reference to   *)
 (*                                    the structure that contains the      *)
 (*                                    field and to that structure's parent)*)
@@ -73,13 +75,28 @@ RelClasses   == PrevClasses \cup NextClasses
 \* font's own value differs from the implied one (padding, slack); the implied value is a fact of the structural
 \* walk, computed WITHOUT reading the field itself, carried by the field as dv (-1 = the walk knows none).
 DerClasses   == {"der-1", "der-half"}
-ValueClasses == ByteClasses \cup RefClasses \cup RelClasses \cup DerClasses
+\* bit classes: exactly one bit of the field is toggled ("bitK": bit K counted from the least significant bit of the
+\* big-endian field).  They are for the fields whose bits are switches or whose value selects a format - role
+\* "version": format numbers, transform versions, flag bytes and words (glyf simple / composite flags, lookup flags,
+\* coverage words, the flag part of tupleIndex / tupleVariationCount, WOFF2 directory and transform flags).  The
+\* byte-level classes set or clear many bits at once (max, hi7f, hi80) or move to the neighbouring number (inc, dec,
+\* dbl, half); a single flag switched on or off beside the others - a REPEAT flag on the last point, ARG words
+\* without the words, an hmtx transform without the glyf transform, a format 12 sub-table read as format 13 - is
+\* a function of the old bytes none of them computes.
+BitClasses   == {"bit0", "bit1", "bit2", "bit3", "bit4", "bit5", "bit6", "bit7",
+                 "bit8", "bit9", "bit10", "bit11", "bit12", "bit13", "bit14", "bit15"}
+BitNo(vc)    == CASE vc = "bit0" -> 0 [] vc = "bit1" -> 1 [] vc = "bit2" -> 2 [] vc = "bit3" -> 3 [] vc = "bit4" -> 4
+                  [] vc = "bit5" -> 5 [] vc = "bit6" -> 6 [] vc = "bit7" -> 7 [] vc = "bit8" -> 8 [] vc = "bit9" -> 9
+                  [] vc = "bit10" -> 10 [] vc = "bit11" -> 11 [] vc = "bit12" -> 12 [] vc = "bit13" -> 13
+                  [] vc = "bit14" -> 14 [] vc = "bit15" -> 15
+ValueClasses == ByteClasses \cup RefClasses \cup RelClasses \cup DerClasses \cup BitClasses
 RefRoles     == {"offset", "index"}
 RelRoles     == {"count", "offset", "length", "index", "value"}
 \* an offset has an implied value when it ends a record whose own content says how long it is (start + implied size)
 DerRoles     == {"count", "length", "offset"}
+BitRoles     == {"version"}
 ClassApplies(vc, role) == (vc \in RefClasses => role \in RefRoles) /\ (vc \in RelClasses => role \in RelRoles)
-                          /\ (vc \in DerClasses => role \in DerRoles)
+                          /\ (vc \in DerClasses => role \in DerRoles) /\ (vc \in BitClasses => role \in BitRoles)
 Levels       == {"dir", "table"}
 FaultKinds   == {"Overwrite", "Truncate", "RemoveTable", "ShrinkLength", "SwapTables"}
 TruncWhere   == {"at", "inside"}
@@ -122,6 +139,11 @@ Half(a) == HalfC(a, 0)
 Not(a)  == [k \in 1 .. Len(a) |-> 255 - a[k]]
 Neg(a)  == AddC(Not(a), Zeros(Len(a)), 1)                \* 2^(8 Len(a)) - a
 Hi80(w) == [k \in 1 .. w |-> IF k = 1 THEN 128 ELSE 0]
+Pow2(j) == CASE j = 0 -> 1 [] j = 1 -> 2 [] j = 2 -> 4 [] j = 3 -> 8 [] j = 4 -> 16 [] j = 5 -> 32 [] j = 6 -> 64 [] j = 7 -> 128
+\* bit n (from the least significant bit of the whole field) toggled; n < 8 * Len(a)
+FlipBit(a, n) ==
+  LET w == Len(a)  pos == w - (n \div 8)  p == Pow2(n % 8) IN
+  [k \in 1 .. w |-> IF k # pos THEN a[k] ELSE IF (a[k] \div p) % 2 = 1 THEN a[k] - p ELSE a[k] + p]
 
 \* the value a class names for a field that held `old` (Len(old) = width); sv / pv: the references
 \* of the field (numbers below 2^31; the low-order bytes are written, as a reader of the field sees them);
@@ -145,6 +167,7 @@ NewValue(vc, old, flen, tlen, sv, pv, dv, pb, nb) ==
     [] vc = "parent"   -> BytesOf(pv, w)
     [] vc = "der-1"    -> BytesOf(dv - 1, w)
     [] vc = "der-half" -> BytesOf(dv \div 2, w)
+    [] vc \in BitClasses -> FlipBit(old, BitNo(vc))
     [] vc = "eqprev"   -> pb
     [] vc = "eqnext"   -> nb
     [] vc = "prev+1"   -> Inc(pb)
@@ -160,6 +183,8 @@ NewValue(vc, old, flen, tlen, sv, pv, dv, pb, nb) ==
 HasRef(vc, sv, pv) == (vc = "self" => sv >= 0) /\ (vc = "parent" => pv >= 0)
 \* a derived class applies to a field for which the walk knows an implied value of at least 1
 HasDer(vc, dv) == vc \in DerClasses => dv >= 1
+\* a bit class applies to a field that has that bit
+HasBit(vc, w) == vc \in BitClasses => BitNo(vc) < 8 * w
 \* a relational class applies to a field whose sibling is there (w = width of the field)
 HasRel(vc, w, pb, nb) == (vc \in PrevClasses => Len(pb) = w) /\ (vc \in NextClasses => Len(nb) = w)
 
@@ -180,12 +205,12 @@ InFile(bs, p, w)  == p >= 0 /\ p + w <= Len(bs)
 Sibling(bs, p, w) == IF p >= 0 /\ InFile(bs, p, w) THEN Window(bs, p, w) ELSE <<>>
 
 \* a fault whose target no longer lies inside the (already truncated) file does nothing; neither does
-\* a reference class on a field without that reference, a derived class on a field without an implied value, nor a
-\* relational class on a field without that sibling
+\* a reference class on a field without that reference, a derived class on a field without an implied value, a
+\* bit class on a field too narrow to have the bit, nor a relational class on a field without that sibling
 Apply(bs, f) ==
   CASE f.k = "Overwrite" ->
          LET pb == Sibling(bs, f.po, f.w)  nb == Sibling(bs, f.no, f.w) IN
-         IF InFile(bs, f.off, f.w) /\ HasRef(f.vc, f.sv, f.pv) /\ HasDer(f.vc, f.dv) /\ HasRel(f.vc, f.w, pb, nb)
+         IF InFile(bs, f.off, f.w) /\ HasRef(f.vc, f.sv, f.pv) /\ HasDer(f.vc, f.dv) /\ HasBit(f.vc, f.w) /\ HasRel(f.vc, f.w, pb, nb)
          THEN Patch(bs, f.off, NewValue(f.vc, Window(bs, f.off, f.w), Len(bs), f.tlen, f.sv, f.pv, f.dv, pb, nb)) ELSE bs
     [] f.k = "Truncate" -> SubSeq(bs, 1, IF f.at < Len(bs) THEN f.at ELSE Len(bs))
     [] f.k = "RemoveTable" ->
